@@ -134,14 +134,14 @@ variable {α : Type} [Num α] {n : Nat}
 
 /-- kernel contract: each literal added to `evals.ode` equals the number of calls the region makes -/
 structure KOK (Kn : HKernel α n) : Prop where
-  trial : ∀ f x h y k1, (Kn.trial f x h y k1).2.1.size = (Kn.trial f x h y k1).2.2
+  trial : ∀ f x h l e y k1, (Kn.trial f x h l e y k1).2.1.size = (Kn.trial f x h l e y k1).2.2
   acceptA : ∀ f S x h y k1, (Kn.acceptA f S x h y k1).2.1.size = (Kn.acceptA f S x h y k1).2.2
   acceptB : ∀ f d S x h y k1, (Kn.acceptB f d S x h y k1).2.2.2.1.size = (Kn.acceptB f d S x h y k1).2.2.2.2
 
 def Result.Counted {σ : Type} (r : Result σ α n) : Prop := r.m.Counted
 
 theorem hTrial_counted {σ : Type} (P : HParams α n) (Kn : HKernel α n) (hk : KOK Kn) (f : Rhs α n) (s : HState σ α n) (h : α)
-    (hs : s.m.Counted) : (hTrial P Kn f s h).m.Counted := by
+    (l : Bool) (hs : s.m.Counted) : (hTrial P Kn f s h l).m.Counted := by
   unfold hTrial
   exact Meter.counted_bump (Meter.counted_incTotal hs) _ _ (hk.trial ..)
 
@@ -166,9 +166,9 @@ theorem hFinish_counted {σ : Type} (P : HParams α n) (Kn : HKernel α n) (hk :
   unfold hFinish
   dsimp only
   have hC := Meter.counted_cb (Meter.counted_bump hm _ _ (hk.acceptB (fun j => f (m.ncalls + j)) P.dense sa s.x h s.y s.k1))
-    s.x (s.x + h) (Kn.acceptB (fun j => f (m.ncalls + j)) P.dense sa s.x h s.y s.k1).1
+    s.x (landX last P.xend s.x h) (Kn.acceptB (fun j => f (m.ncalls + j)) P.dense sa s.x h s.y s.k1).1
     (sampleInterp (if P.dense then some (Kn.interp (Kn.acceptB (fun j => f (m.ncalls + j)) P.dense sa s.x h s.y s.k1).2.2.1 s.x h)
-      else none) s.x (s.x + h) P.quarter P.half P.threeq)
+      else none) s.x (landX last P.xend s.x h) P.quarter P.half P.threeq)
   split
   · exact hC
   · rename_i obs' y' k' m' heq
@@ -196,8 +196,8 @@ theorem hIter_counted {σ : Type} (P : HParams α n) (Kn : HKernel α n) (hk : K
   · exact hs
   · dsimp only
     split
-    · exact hAccepted_counted P Kn hk f ob s _ _ _ (hTrial_counted P Kn hk f s _ hs)
-    · exact hRejected_counted P s _ _ _ (hTrial_counted P Kn hk f s _ hs)
+    · exact hAccepted_counted P Kn hk f ob s _ _ _ (hTrial_counted P Kn hk f s _ _ hs)
+    · exact hRejected_counted P s _ _ _ (hTrial_counted P Kn hk f s _ _ hs)
 
 theorem hLoop_counted {σ : Type} (P : HParams α n) (Kn : HKernel α n) (hk : KOK Kn) (f : Rhs α n) (ob : Obs σ α n) :
     ∀ (fuel : Nat) (s : HState σ α n), s.m.Counted → ∀ r, hLoop P Kn f ob fuel s = some r → r.m.Counted := by
@@ -258,12 +258,12 @@ variable {α : Type} [Num α] {n : Nat}
 
 /-! ### the concrete kernels meet the counting contract (the literals 6, 11, 1, 3 of the source are right) -/
 
-theorem dopri5_stages_calls (f : Rhs α n) (y k1 : Vec α n) (x h : α) :
-    (Gen.Dopri5.stages (f := f) (y := y) (h := h) (k1 := k1) (x := x)).calls.size = 6 := by
+theorem dopri5_stages_calls (f : Rhs α n) (y k1 : Vec α n) (x h : α) (l : Bool) (e : α) :
+    (Gen.Dopri5.stages (f := f) (y := y) (h := h) (k1 := k1) (x := x) (last := l) (xend := e)).calls.size = 6 := by
   simp [Gen.Dopri5.stages]
 
-theorem dop853_stages_calls (f : Rhs α n) (y k1 : Vec α n) (x h : α) :
-    (Gen.Dop853.stages (f := f) (y := y) (h := h) (k1 := k1) (x := x)).calls.size = 11 := by
+theorem dop853_stages_calls (f : Rhs α n) (y k1 : Vec α n) (x h : α) (l : Bool) (e : α) :
+    (Gen.Dop853.stages (f := f) (y := y) (h := h) (k1 := k1) (x := x) (last := l) (xend := e)).calls.size = 11 := by
   simp [Gen.Dop853.stages]
 
 theorem dop853_fsal_calls (f : Rhs α n) (xph : α) (k5 : Vec α n) :
@@ -281,12 +281,12 @@ theorem hinit_calls (f : Rhs α n) (atol rtol y f0 : Vec α n) (hmax posneg x : 
   simp [Gen.Common.hinit]
 
 theorem dopri5Kernel_ok (atol rtol : Vec α n) : KOK (dopri5Kernel atol rtol) where
-  trial f x h y k1 := by simp [dopri5Kernel, dopri5_stages_calls]
+  trial f x h l e y k1 := by simp [dopri5Kernel, dopri5_stages_calls]
   acceptA f S x h y k1 := by simp [dopri5Kernel]
   acceptB f d S x h y k1 := by simp [dopri5Kernel]
 
 theorem dop853Kernel_ok (atol rtol : Vec α n) : KOK (dop853Kernel atol rtol) where
-  trial f x h y k1 := by simp [dop853Kernel, dop853_stages_calls]
+  trial f x h l e y k1 := by simp [dop853Kernel, dop853_stages_calls]
   acceptA f S x h y k1 := by simp [dop853Kernel, dop853_fsal_calls]
   acceptB f d S x h y k1 := by
     cases d <;> simp [dop853Kernel, dop853_extra_calls]
@@ -348,10 +348,10 @@ theorem hFinish_inv {σ : Type} (P : HParams α n) (Kn : HKernel α n) (f : Rhs 
   dsimp only
   split
   · refine ⟨?_, by simpa using ht⟩
-    simpa using ChainTo.step hc (s.x + h)
+    simpa using ChainTo.step hc (landX last P.xend s.x h)
   · rename_i obs' y' k' m' heq
     have hm := afterCb_go_meter f ob _ _ _ _ _ _ _ obs' y' k' m' heq
-    have hc' : ChainTo m'.pairs (s.x + h) := by rw [hm.1]; simpa using ChainTo.step hc (s.x + h)
+    have hc' : ChainTo m'.pairs (landX last P.xend s.x h) := by rw [hm.1]; simpa using ChainTo.step hc (landX last P.xend s.x h)
     have ht' : m'.cnt.total ≤ P.nmax + 1 := by rw [hm.2]; simpa using ht
     split <;> exact ⟨hc', ht'⟩
 
@@ -468,8 +468,10 @@ theorem afterCb_cont {σ : Type} (f : Rhs α n) (ob : Obs σ α n) (obs : σ) (m
 theorem hFinish_interrupt {σ : Type} (P : HParams α n) (Kn : HKernel α n) (f : Rhs α n) (ob : Obs σ α n)
     (s : HState σ α n) (h : α) (last : Bool) (hnew facold hlamb : α) (ns ia : Nat) (sa : Kn.SA) (m : Meter α n)
     (hflag : ∀ m' : Meter α n, ∀ y ip k,
-      afterCb f ob s.obs m' s.x (s.x + h) y ip k = .stop (ob s.obs s.x (s.x + h) y ip).1 (ob s.obs s.x (s.x + h) y ip).2.2) :
-    ∃ r, hFinish P Kn f ob s h last hnew facold hlamb ns ia sa m = .inr r ∧ r.status = .userInterrupt ∧ r.x = s.x + h
+      afterCb f ob s.obs m' s.x (landX last P.xend s.x h) y ip k
+        = .stop (ob s.obs s.x (landX last P.xend s.x h) y ip).1 (ob s.obs s.x (landX last P.xend s.x h) y ip).2.2) :
+    ∃ r, hFinish P Kn f ob s h last hnew facold hlamb ns ia sa m = .inr r ∧ r.status = .userInterrupt
+      ∧ r.x = landX last P.xend s.x h
       ∧ ∃ e, r.m.log.back? = some e ∧ isOde e = false := by
   unfold hFinish
   dsimp only
@@ -547,9 +549,9 @@ theorem hIter_passive {σ : Type} (P : HParams α n) (Kn : HKernel α n) (f : Rh
   | none =>
     dsimp only
     have ha : hAdjust P s.strip = hAdjust P s := rfl
-    have ht : ∀ h, hTrial P Kn f s.strip h = hTrial P Kn f s h := fun _ => rfl
+    have ht : ∀ h l, hTrial P Kn f s.strip h l = hTrial P Kn f s h l := fun _ _ => rfl
     rw [ha, ht]
-    by_cases hc : (hTrial P Kn f s (hAdjust P s).1).err ≤ P.one
+    by_cases hc : (hTrial P Kn f s (hAdjust P s).1 (hAdjust P s).2).err ≤ P.one
     · rw [if_pos hc, if_pos hc]; exact hAccepted_passive P Kn f ob hp s _ _ _
     · rw [if_neg hc, if_neg hc]; rfl
 
